@@ -39,7 +39,10 @@ def run_ops(chk, rng, new, src_obj, nops, log):
                 new[k][new.header[col]] = 'ASSIGNED'
                 log.append(('assign', k, col))
             elif op == 'renumber':
-                new.renumber('concept', 'cid%d' % rng.randrange(100))
+                cname = 'cid%d' % rng.randrange(100)
+                if cname in new.header:
+                    cname += 'x%d' % len(new.header)       # a fresh column (an existing one makes the library ask on the terminal)
+                new.renumber('concept', cname)
                 log.append(('renumber',))
             elif op == 'cluster' and hasattr(new, 'cluster'):
                 new.cluster(method=rng.choice(['edit-dist', 'turchin', 'sca']), threshold=0.4,
